@@ -170,6 +170,26 @@ func openCoroutine(in *Interp) {
 		ok2, vals := resume(in, co, a[1:])
 		return append([]Value{ok2}, vals...)
 	})
+	// hostresume(f, ...): the host drives a coroutine through the Go API (NewThread + Resume): first resume with the
+	// arguments, then resumes without values until the coroutine is dead; returns true and the body's results, or false
+	// and the error value
+	in.reg(in.G, "hostresume", func(in *Interp, a []Value) []Value {
+		if _, ok := arg(a, 0).(*Closure); !ok {
+			in.argErr(1, "hostresume", "Lua function expected")
+		}
+		co := in.newCoroutine(a[0])
+		args := a[1:]
+		for {
+			ok2, vals := resume(in, co, args)
+			if !ok2 {
+				return append([]Value{false}, vals...)
+			}
+			if co.status == "dead" {
+				return append([]Value{true}, vals...)
+			}
+			args = nil
+		}
+	})
 	in.reg(C, "yield", func(in *Interp, a []Value) []Value {
 		return in.yield(append([]Value(nil), a...))
 	})
